@@ -284,16 +284,27 @@ func c29Sync(c *engine.Ctx, p *engine.Prog) {
 			continue
 		}
 		ss := f.CallsTo(tc.engine)
+		if len(ss) == 0 {
+			for _, d := range sfDeepCallsTo(f, 2, tc.engine) {
+				ss = append(ss, d.site) // engine call moved into a private helper
+			}
+		}
 		ok := len(ss) == 1
 		if ok {
 			ok = false
+			f := ss[0].Fn
 			a := ss[0].Call.Args[len(ss[0].Call.Args)-1]
+			if id, isId := ast.Unparen(a).(*ast.Ident); isId {
+				if d := sfSingleDef(f, f.Info().ObjectOf(id)); d != nil {
+					a = d // hoisted `wo := &opt.WriteOptions{Sync: true}`
+				}
+			}
 			if u, isU := ast.Unparen(a).(*ast.UnaryExpr); isU && u.Op == token.AND {
 				if cl, isCL := u.X.(*ast.CompositeLit); isCL {
 					for _, el := range cl.Elts {
 						if kv, isKV := el.(*ast.KeyValueExpr); isKV {
 							if id, isId := kv.Key.(*ast.Ident); isId && id.Name == "Sync" {
-								if v, isV := kv.Value.(*ast.Ident); isV && v.Name == "true" {
+								if v, isC := sfConstBool(f.Info(), kv.Value); isC && v {
 									ok = true
 								}
 							}
@@ -317,7 +328,13 @@ func c29Sync(c *engine.Ctx, p *engine.Prog) {
 		ss := f.CallsTo(tc.engine)
 		ok := len(ss) == 1
 		if ok {
-			o := engine.ObjOf(f.Info(), ss[0].Call.Args[len(ss[0].Call.Args)-1])
+			la := ss[0].Call.Args[len(ss[0].Call.Args)-1]
+			if id, isId := ast.Unparen(la).(*ast.Ident); isId {
+				if d := sfSingleDef(f, f.Info().ObjectOf(id)); d != nil {
+					la = d
+				}
+			}
+			o := engine.ObjOf(f.Info(), la)
 			ok = o != nil && o.Pkg() != nil && o.Pkg().Path() == "github.com/cockroachdb/pebble" && o.Name() == "Sync"
 		}
 		n++
@@ -523,6 +540,11 @@ func c29IterBounds(c *engine.Ctx, p *engine.Prog) {
 				if !isC || !sfIsIntLit(bb, "0") {
 					continue
 				}
+				if id, isId := ast.Unparen(a).(*ast.Ident); isId {
+					if d := sfSingleDef(f, info.ObjectOf(id)); d != nil {
+						a = d // hoisted comparison result
+					}
+				}
 				cl, isCall := sfIsCallTo(info, a, "bytes.Compare")
 				if !isCall {
 					continue
@@ -688,7 +710,7 @@ func c29BatchCommit(c *engine.Ctx, p *engine.Prog) {
 	} {
 		callers := engine.CallerSet(p.RefsToFunc(tc.engineFn))
 		n++
-		c.Check("batch-commit", tc.engineFn, token.NoPos, len(callers) >= 1 && len(engine.SetDiff(callers, tc.allowed)) == 0,
+		c.Check("batch-commit", tc.engineFn, token.NoPos, len(callers) >= 1 && len(sfWritersOK(p, callers, tc.allowed)) == 0,
 			"a batch reaches the engine only from Write/WriteSync (a closed, unwritten batch performs no write); callers: "+join(callers))
 	}
 	c.Floor("batch-commit", n, 5)
@@ -697,31 +719,42 @@ func c29BatchCommit(c *engine.Ctx, p *engine.Prog) {
 func c29Wrappers(c *engine.Ctx, p *engine.Prog) {
 	n := 0
 	inner := p.Field(c29DB + ".PrefixDB.db")
+	pfxField := p.Field(c29DB + ".PrefixDB.prefix")
+	// the forwarded key is copy(prefix) ++ key, written inline or through a private helper
+	isPrefixedKey := func(l sfLeaf, param int) bool {
+		if l.e == nil {
+			return false
+		}
+		info := l.ctx.fn.Info()
+		cl, isC := sfIsCallTo(info, l.e, "builtin.append")
+		if !isC || !cl.Ellipsis.IsValid() || len(cl.Args) != 2 || sfRootParam(l.ctx, cl.Args[1]) != param {
+			return false
+		}
+		in, isCp := sfIsCallTo(info, cl.Args[0], c29DB+".cp", "slices.Clone", "bytes.Clone")
+		return isCp && sfFieldSel(info, in.Args[0], pfxField)
+	}
+	stopCp := func(cx *sfCtx, cl *ast.CallExpr) bool {
+		nm := sfCallee(cx.fn.Info(), cl)
+		return nm == "builtin.append" || nm == c29DB+".cp"
+	}
 	for _, m := range []string{"Get", "Has", "Set", "SetSync", "Delete", "DeleteSync"} {
 		f := sfMethod(c, c29DB, "PrefixDB", m)
 		if f == nil {
 			continue
 		}
-		info := f.Info()
 		cnt, ok := 0, true
-		for _, s := range f.Calls() {
-			fld, mm := sfMethodOnField(info, s.Call)
-			if fld != inner || inner == nil {
-				continue
-			}
+		for _, d := range sfDeepFieldCalls(f, 2, inner) {
+			_, mm := sfMethodOnField(d.info(), d.site.Call)
 			cnt++
-			keyOK := sfDerives(f, s.Call.Args[0], func(e ast.Expr) bool {
-				cl, isC := sfIsCallTo(info, e, c29DB+".(*PrefixDB).prefixed")
-				return isC && sfIsParam(f, cl.Args[0], 0)
-			}, 2)
-			if mm != m || !keyOK || (len(s.Call.Args) == 2 && !sfIsParam(f, s.Call.Args[1], 1)) {
+			keyOK := sfAllLeafs(sfLeafs(d.ctx, d.arg(0), d.site, 4, stopCp), func(l sfLeaf) bool { return isPrefixedKey(l, 0) })
+			if mm != m || !keyOK || (len(d.site.Call.Args) == 2 && d.rootParam(1) != 1) {
 				ok = false
 			}
 		}
 		n++
-		c.Check("wrapper", f.Name+" forwards the same operation with the prefixed key", f.Pos(), ok && cnt == 1, "")
+		c.Check("wrapper", f.Name+" forwards the same operation with the prefixed key", f.Pos(), ok && cnt >= 1, "")
 	}
-	if f := sfMethod(c, c29DB, "PrefixDB", "prefixed"); f != nil {
+	if f := p.Func(c29DB + ".(*PrefixDB).prefixed"); f != nil {
 		info := f.Info()
 		ok := false
 		pf := p.Field(c29DB + ".PrefixDB.prefix")
@@ -849,5 +882,5 @@ func c29Wrappers(c *engine.Ctx, p *engine.Prog) {
 		n++
 		c.Check("wrapper", f.Name+" delegates unchanged", f.Pos(), ok, "")
 	}
-	c.Floor("wrapper", n, 25)
+	c.Floor("wrapper", n, 24)
 }
